@@ -286,20 +286,24 @@ func lokiCase1(r *rand.Rand, id int) *Case {
 		fromS = toS - 300
 	}
 	matrix := mc.Shape == "rate" || mc.Shape == "agg_json"
+	huge := false
 	if matrix {
 		stepMs := int64(1000)
 		if mc.Step.K == "num" {
 			stepMs = mc.Step.V
 		}
 		if stepMs > 0 && toS >= fromS {
-			if grayZone(float64(toS-fromS)*1000/float64(stepMs) + 1) {
+			pts := float64(toS-fromS)*1000/float64(stepMs) + 1
+			if grayZone(pts) {
 				return nil
 			}
+			huge = huge || pts > 4e5
 		}
 		aFrom, aTo := truncS(fromS, mc.DurS), truncS(toS, mc.DurS)+mc.DurS
 		if mc.Shape == "agg_json" && grayZone(float64(aTo-aFrom)/float64(mc.DurS)*2) {
 			return nil
 		}
+		huge = huge || float64(aTo-aFrom)/float64(mc.DurS)*2 > 4e5
 		fromS, toS = aFrom, aTo
 	}
 	genRows(r, mc, fromS, toS)
@@ -348,6 +352,12 @@ func lokiCase1(r *rand.Rand, id int) *Case {
 		rs.Rows = append(rs.Rows, cells)
 	}
 	c.Script = []ResultSet{rs}
+	if !huge && r.Intn(4) == 0 {
+		// the client goes away after that many bytes of the answer (the outcome class stays what the model says)
+		k := []int{0, 1, 70, 500, 5000}[r.Intn(5)]
+		c.AbortAfter = &k
+		c.Class += "+client-gone"
+	}
 	b, _ := json.Marshal(mc)
 	c.Model = b
 	return c
@@ -389,6 +399,11 @@ func tempoCase(r *rand.Rand, id int) *Case {
 		c.Accept = "application/protobuf"
 	}
 	c.Script = []ResultSet{rs}
+	if r.Intn(4) == 0 {
+		k := []int{0, 1, 100, 400}[r.Intn(4)]
+		c.AbortAfter = &k
+		c.Class += "+client-gone"
+	}
 	b, _ := json.Marshal(mc)
 	c.Model = b
 	return c
@@ -594,7 +609,7 @@ func testCase(r *rand.Rand, id int) *Case {
 			c.Params = append(c.Params, KV{k, v})
 		}
 	}
-	ep := r.Intn(16)
+	ep := r.Intn(17)
 	switch ep {
 	case 0, 1: // Loki log/matrix queries with arbitrary text; the step stays positive and the range small (modelled stream covers the rest)
 		c.Class = "test/loki_range/" + qk
@@ -712,12 +727,64 @@ func testCase(r *rand.Rand, id int) *Case {
 		add("end", fmt.Sprintf("%d000000000", baseSec+300))
 		add("step", "15")
 		c.Script = randScript(r)
+	case 15:
+		if r.Intn(2) == 0 {
+			return tcpResetCase(r, id)
+		}
+		fallthrough
 	default:
 		c.Class = "test/tail_no_upgrade"
 		c.Path = "/loki/api/v1/tail"
 		c.WaitMs = 2500 // the tail goroutine notices the closed watcher at its next one-second tick
 		add("query", q)
 		c.Script = lokiScript(r)
+	}
+	if r.Intn(5) == 0 && c.WaitMs == 0 {
+		k := []int{0, 1, 64, 1000, 20000}[r.Intn(5)]
+		c.AbortAfter = &k
+		c.Class += "+client-gone"
+	}
+	return c
+}
+
+// a real TCP client that reads a few KiB of a multi-megabyte answer and resets the connection
+func tcpResetCase(r *rand.Rand, id int) *Case {
+	c := &Case{ID: id, Method: "GET", Tcp: true}
+	k := []int{0, 100, 4096, 65536, 300000}[r.Intn(5)]
+	c.AbortAfter = &k
+	big := func(cols int, row []Cell, n int) []ResultSet {
+		rows := make([][]Cell, 0, 50)
+		for i := 0; i < 50; i++ {
+			rows = append(rows, row)
+		}
+		return []ResultSet{{Match: "", Cols: cols, FailAfter: -1, Rows: rows, Repeat: n / 50}}
+	}
+	t0, t1 := fmt.Sprintf("%d000000000", baseSec), fmt.Sprintf("%d000000000", baseSec+300)
+	line := strings.Repeat("x", 120)
+	switch r.Intn(5) {
+	case 0:
+		c.Class = "test/tcp_reset/loki_range_log"
+		c.Path = "/loki/api/v1/query_range"
+		c.Params = []KV{{"query", `{a="b"}`}, {"start", t0}, {"end", t1}, {"limit", "1000000"}}
+		c.Script = big(4, []Cell{{U: u64(1)}, {M: map[string]string{"a": "b"}}, {S: str(line)}, {I: i64((baseSec + 1) * 1000000000)}}, 150000)
+	case 1:
+		c.Class = "test/tcp_reset/loki_range_json"
+		c.Path = "/loki/api/v1/query_range"
+		c.Params = []KV{{"query", `{a="b"} | json`}, {"start", t0}, {"end", t1}, {"limit", "1000000"}}
+		c.Script = big(4, []Cell{{U: u64(1)}, {M: map[string]string{"a": "b"}}, {S: str(`{"k":"` + line + `"}`)}, {I: i64((baseSec + 1) * 1000000000)}}, 100000)
+	case 2:
+		c.Class = "test/tcp_reset/loki_instant"
+		c.Path = "/loki/api/v1/query"
+		c.Params = []KV{{"query", `{a="b"}`}, {"time", t1}, {"limit", "1000000"}}
+		c.Script = big(4, []Cell{{U: u64(1)}, {M: map[string]string{"a": "b"}}, {S: str(line)}, {I: i64((baseSec + 1) * 1000000000)}}, 150000)
+	case 3:
+		c.Class = "test/tcp_reset/tempo_trace"
+		c.Path = "/api/traces/0123456789abcdef0123456789abcdef"
+		c.Script = big(7, []Cell{{S: str("0123456789abcdef")}, {S: str("01234567")}, {S: str("")}, {I: i64(baseSec * 1000000000)}, {I: i64(1000)}, {I: i64(1)}, {S: str(zipOK)}}, 40000)
+	default:
+		c.Class = "test/tcp_reset/loki_labels"
+		c.Path = "/loki/api/v1/label/a/values"
+		c.Script = big(1, []Cell{{S: str(line)}}, 150000)
 	}
 	return c
 }
